@@ -5,9 +5,9 @@ EXTENDS PopulatorMC
 
 \* thorough: shards small enough to dump (<= ~2*10^4 scenarios each)
 TreesT(n) == {Tree(F, Em) : F \in {x \in SUBSET FileU : Cardinality(x) = n}, Em \in Empties} \cup RichTrees
-Sc_t1 == <<Fam1(TreesT(1)), Fam1(TreesT(2))>>
-Sc_t2 == <<Fam1({tr \in TreesT(3) : dx \in tr.files \/ dxt \in tr.files})>>
-Sc_t3 == <<Fam1({tr \in TreesT(3) : dx \notin tr.files /\ dxt \notin tr.files})>>
+Sc_t1 == <<Fam1(TreesT(1), {"T", "N"}), Fam1(TreesT(2), {"T", "N"})>>
+Sc_t2 == <<Fam1({tr \in TreesT(3) : dx \in tr.files \/ dxt \in tr.files}, {"T", "N"})>>
+Sc_t3 == <<Fam1({tr \in TreesT(3) : dx \notin tr.files /\ dxt \notin tr.files}, {"T", "N"})>>
 Lists2T == Lists2 \cup {<<P(RD, {"txt"}), P(RD, {"txt"}), P(RD, {})>>, <<P(DS, {}), P(RD, {"gz"})>>, <<P(RE, {}), P(RD, {"png"})>>}
 TreesCT == {Tree(F, Em) : F \in UpTo(DFiles \cup {dszt}, 4) \ {{}}, Em \in {{}}}
 Adds2T == Adds2 \cup {<<P(RD, {}), P(DS, {"txt"})>>}
